@@ -28,9 +28,9 @@ func (api API) ServeHTTP(w http.ResponseWriter, r *http.Request) {
 	if len(resp.Document.Errors) > 0 {
 		status = http.StatusInternalServerError
 		for _, err := range resp.Document.Errors {
-			if err.Status != "" {
-				n, _ := strconv.ParseInt(err.Status, 10, 0)
-				status = int(n)
+			// An error carries a status only if its status member is a code WriteHeader accepts.
+			if n, perr := strconv.Atoi(err.Status); perr == nil && n >= 100 && n <= 999 {
+				status = n
 				break
 			}
 		}
